@@ -535,10 +535,6 @@ class Env(object):
             return {"path": self.path}
         raise ValueError(kind)
 
-    def anyns(self):
-        ns = self.newns()
-        return ns if ns is not None else dendropy.TaxonNamespace()
-
 
 def block_slices(blocks):
     out = []
